@@ -267,6 +267,11 @@ func TestC08Corpus(t *testing.T) {
 			}
 		}
 	}
+	// statement forms the repository's tests and examples do not use
+	corpus["extra_set_matches"] = "set m to matches find all 'a' find all 'b'"
+	corpus["extra_set_matches_replace"] = "find all 'c'\nset m to matches replace top 2 'a' with 'b' -- todo"
+	corpus["extra_set_function"] = "set f to function if matchLength > 1 then return 'l' else return 's' end end replace all at least 1 'a' with f '!'"
+	corpus["extra_empty_replace"] = "replace top 3 with 'x' find last 1"
 	for i, name := range sortedKeys(corpus) {
 		if i%nshards != shardIdx {
 			continue
